@@ -8,6 +8,8 @@ selection per bound and the statement's terms in each arm; the position credit f
 (floor multiply, overflow -> 0, wrapping add, checkpoint := inside); the swap loop hands
 the crossing the updated growth for the input token and the stored one for the other, in
 the order step -> fee split -> running growth -> crossing within one iteration.
+Also decided: each growth value reaches the parameter of its own side in both packagings (C05.R2 instances
+re-decided here);
 Not decided: the quantitative pro-rata bound."""
 from analysis import cfg, atoms as A, preach, writes
 from analysis.ir import callee_path, AnchorMissing
